@@ -305,4 +305,47 @@ def selftest():
         hit = any("Converge" in e for e in res["errors"])
         print(f"selftest: deviation {dev} violates Converge on the model: {hit}")
         ok = ok and hit
+    # Negative controls on the binding: a recorded trace is accepted; with one hook event dropped or one field
+    # corrupted it is rejected, at that event, under the rule that speaks about it.
+    import copy
+    vlib.build_harness(["dtlshs"])
+    sc = dc.scenarios_from_sched([{"cfg": {"fpC": "match", "fpS": "none", "idC": "certC", "idS": "certS"},
+                                   "ops": [{"dir": "S>C", "msg": "FIN", "ord": 1, "kind": "drop", "k": 0}]}], TICK_MS, DEADLINE_MS,
+                                 always_empty=False)
+    out = dc.run_scenarios(ck, sc, "selftest", nproc=1)[0]
+
+    def verdict(mut):
+        o = copy.deepcopy(out)
+        evs = dc.normalise(o)
+        evs = mut(evs)
+        o2 = dict(o)
+        orig = dc.normalise
+        dc.normalise = lambda _o: evs
+        try:
+            acc, rej, _ = dc.validate_traces(ck, [o2], dc.OPEN_DEVIATIONS, "selftest")
+        finally:
+            dc.normalise = orig
+        return acc, (rej[0]["rule"], rej[0]["event"]["ev"]) if rej else None
+
+    def drop_flight(evs):
+        i = next(k for k, e in enumerate(evs) if e["ev"] == "flight" and e["inst"] == "S" and e["why"] != "timer")
+        return evs[:i] + evs[i + 1:]
+
+    def corrupt_kh(evs):
+        evs = copy.deepcopy(evs)
+        next(e for e in evs if e["ev"] == "connected" and e["inst"] == "C")["kh"] = "1"
+        return evs
+
+    def flip_disp(evs):
+        evs = copy.deepcopy(evs)
+        next(e for e in evs if e["ev"] == "hs" and e["disp"] == "acc" and e["t"] == "SKE")["disp"] = "dup"
+        return evs
+
+    for name, mut, want in (("unchanged", lambda e: e, None), ("server flight event dropped", drop_flight, "MustResend"),
+                            ("key hash of client's connected event corrupted", corrupt_kh, "KeyAgreement"),
+                            ("disposition of SKE flipped to dup", flip_disp, "Sequencing")):
+        acc, rej = verdict(mut)
+        good = (rej is None and acc == 1) if want is None else (rej is not None and rej[0] == want)
+        print(f"selftest: trace {name}: accepted={acc} rejected={rej} -> {'ok' if good else 'UNEXPECTED'}")
+        ok = ok and good
     raise SystemExit(0 if ok else 2)
